@@ -34,6 +34,11 @@ def main():
     pending = dict(spec["units"])
     while pending:
         for name, d in list(pending.items()):
+            if d["base"] == "none":
+                # a root of the user's own, declared as the library declares its own root
+                U[name] = units.Unit(base_unit=None, base_to_unit=lambda x: None, unit_to_base=lambda x: None)
+                del pending[name]
+                continue
             if d["base"] in U:
                 n, dn = d["factor"]
                 U[name] = units.Unit(U[d["base"]], (lambda x, n=n, dn=dn: x * n / dn), (lambda x, n=n, dn=dn: x * dn / n))
@@ -91,6 +96,10 @@ def main():
                     pend = dict(spec["units"])
                     while pend:
                         for name, d in list(pend.items()):
+                            if d["base"] == "none":
+                                U[name] = units.Unit(base_unit=None, base_to_unit=lambda x: None, unit_to_base=lambda x: None)
+                                del pend[name]
+                                continue
                             if d["base"] in U:
                                 n, dn = d["factor"]
                                 U[name] = units.Unit(U[d["base"]], (lambda x, n=n, dn=dn: x * n / dn),
